@@ -70,3 +70,12 @@ def run_acceptor(traces, verdict, pid, max_report=3, exe=None):
     if rc != 0 and acc + rej == 0:
         verdict.violation({"kind": "harness", "correspondence": "Percolator acceptor run", "error": out[-500:]}, has_input=False)
     return {"traces_validated_against_impl": acc + rej, "acceptor_accepted": acc, "acceptor_rejected": rej, "acceptor_reject_reasons": reasons, "acceptor_rejections_not_reproduced": unrepro}
+
+
+def thorough_coqchk(module, cov, verdict):
+    """independent re-check of the compiled theories (thorough tier); axioms reported into the evidence"""
+    okc, outc = vlib.coqchk([module], timeout=2700)
+    cov["coqchk"] = "ok" if okc else "FAILED"
+    cov["coqchk_axioms"] = [l.strip() for l in outc.splitlines() if "axiom" in l.lower()][:10]
+    if not okc:
+        verdict.violation({"kind": "proof", "theorem_or_file": ["coqchk %s failed: %s" % (module, outc[-400:])], "what": "independent checker rejected the compiled theories"}, has_input=False)
